@@ -71,6 +71,11 @@ def build_inputs(tier):
     for s in INVALID_SNIPPETS:
         files.append(("invalid-table", s))
         files.append(("invalid-table-crlf", mutate.crlf("a = 'é'\n" + s)))
+    # characters str.splitlines() treats as line boundaries but readline()/the tokenizer do not
+    for sep in ["\x0c", "\x0b", "\x1c", "\x1d", "\x1e", "\x85", "\u2028"]:
+        for s in INVALID_SNIPPETS[:25]:
+            files.append(("odd-separator", f"import os  # {sep} c\n{sep}\n" + s))
+        files.append(("odd-separator-valid", f"x = 1  # {sep}\n{sep}\ny = 2\n"))
     files += [("multiline-string", "s = '''a\nb\nc''' 3\n"), ("multiline-string", "x = ('''é\nb''' +\n 1) 2\n"), ("endmarker-error", "@dec\n"), ("endmarker-error", "if x:\n"), ("blank-in-brackets", "x = (1 +\n\n\n 2) 3\n")]
     seen = set()
     def encodable(t):
